@@ -452,18 +452,31 @@ def run(R, tier, only=None):
         R.check(not bad, "R07.1", "%s:endpoints" % ity, "%d boundary values of the %s intermediate give the nearest integer or a range error" % (n_pts, fmt),
                 "%s fallback mis-converts boundary values (in %s): %s" % (ity, fmt, "; ".join("%s=%s -> %s, required %s" % (nm, (float(v) if not ieee.is_special(v) else v), got, exp) for nm, v, got, exp in bad[:5])), where=cl.span)
 
-        # ---- R07.6 fast path / fallback entry / error map --------------------------------------------
-        tok = M.token(eng, "DecimalNumericProgramData")
-        res = eng.run(b, [tok])
-        fast_ok = bool(res)
-        for r in res:
-            pc = [e for e in r.trace if e.kind == "call" and e.name.startswith("lexical_core::parse")]
-            if not pc or pc[0].name != "lexical_core::parse" or ((pc[0].extra or {}).get("gargs") or ("",))[0] != ity or "tok-DecimalNumericProgramData-0" not in repr(pc[0].args[0]):
-                fast_ok = False
-            for extra_p in pc[1:]:
-                if "tok-DecimalNumericProgramData-0" not in repr(extra_p.args[0]):
-                    fast_ok = False
-        R.check(fast_ok, "R07.6", "%s:fast-path" % ity, "literal first parsed with lexical_core::parse::<%s>; the fallback re-parses the same literal" % ity, "the %s conversion must try lexical_core::parse::<%s> on the whole literal first" % (ity, ity), where=b.span)
+        # ---- R07.7 NR1 value table ---------------------------------------------------------------------------------
+        # The conversion is folded on NR1 texts around the type's limits, with lexical-core's integer parser as audited
+        # (it lets some literals with the maximal digit count wrap) and the integer TryFrom by contract: a value in range
+        # converts exactly, anything else is -222. This replaces the former "fast path" rule, which demanded that the
+        # literal be parsed with lexical_core::parse::<T> - the very call whose overflow check is unreliable (F17).
+        deng = C.decimal_engine("dflt", "scpi")
+        badv = []
+        nv = 0
+        for text, val in C.nr1_probes(ity):
+            nv += 1
+            rr = C.fold_decimal(deng, b, text)
+            if rr is None or len(rr) != 1 or rr[0].outcome != "return":
+                badv.append("%s: undecided (%s)" % (text.decode(), "too many paths" if rr is None else [M.outcome(r) if r.outcome == "return" else r.outcome for r in rr][:3]))
+                continue
+            oc = M.outcome(rr[0])
+            if lo <= val <= hi:
+                v = ok_value(rr[0])
+                if not (oc == "Ok" and isinstance(v, K) and v.v == val):
+                    badv.append("%s -> %s%s, expected Ok(%d)" % (text.decode(), oc, "(%s)" % v.v if isinstance(v, K) else "", val))
+            elif oc != "Err(DataOutOfRange)":
+                v = ok_value(rr[0])
+                badv.append("%s -> %s%s, expected -222 Data out of range" % (text.decode(), oc, "(%s)" % v.v if isinstance(v, K) else ""))
+        R.check(not badv, "R07.7", "%s:nr1-values" % ity, "in-range NR1 literals convert exactly, out-of-range ones give -222 (%d literals incl. those a wrapping parser gets wrong)" % nv, "; ".join(badv[:4]), where=b.span)
+
+        # ---- R07.6 fallback entry / error map ----------------------------------------------------------------------------
         # fallback closure on each lexical error variant
         emap = {}
         for d, vn in sorted(lex_tab.items()):
